@@ -373,6 +373,16 @@ func (r *RegistryDefault) Init(ctx context.Context) (err error) {
 		}
 
 		r.p.SetNetwork(network.ID)
+
+		// The following members are created lazily and without synchronisation
+		// by their getters. Request goroutines call these getters concurrently,
+		// so create the members here, before any request is served.
+		r.Tracer(ctx)
+		r.Writer()
+		r.Mapper()
+		r.ReadOnlyMapper()
+		r.PermissionEngine()
+		r.ExpandEngine()
 	})
 	return r.init2err
 }
